@@ -121,7 +121,7 @@ static void cache_put(struct cache *cache, SSL_CTX *ssl_ctx)
 __CPROVER_requires(xv_lk_held)
 __CPROVER_requires(CS_LIST(cache) && HAS1(cache) && (L0(cache)->ssl_ctx == ssl_ctx || (HAS2(cache) && L1(cache)->ssl_ctx == ssl_ctx)))
 __CPROVER_requires(XV_LIVE_OK(xv_heap_live) && XV_LIVE_OK(xv_ctx_live) && XV_LIVE_OK(xv_ctxfree_calls) && xv_ctx_dead == NULL && xv_hj < 32)
-__CPROVER_assigns(L0(cache), xv_heap_live, xv_ctx_live, xv_ctxfree_calls, xv_ctxfree_last, xv_ctx_dead, __CPROVER_object_whole(L0(cache)); HAS2(cache): __CPROVER_object_whole(L1(cache)))
+__CPROVER_assigns(L0(cache), xv_heap_live, XV_CX_ASSIGNS, __CPROVER_object_whole(L0(cache)); HAS2(cache): __CPROVER_object_whole(L1(cache)))
 __CPROVER_frees(L0(cache), L1(cache))
 /* PO[C08,C18] cache_put.not_last_user_decrements_that_entry_only */
 __CPROVER_ensures(PUT_F_KEEP(cache, ssl_ctx) ==> (L0(cache) == O0(cache) && O0(cache)->use_cnt == OC0(cache) - 1 && O0(cache)->elem.le_next == O1(cache) && (HAD2(cache) ==> O1(cache)->use_cnt == OC1(cache))))
@@ -156,7 +156,7 @@ void ctx_store_put(SSL_CTX *ssl_ctx)
 __CPROVER_requires(!xv_lk_held && XV_LK_CNT_OK && cache.entries.lh_first == xv_cs_shadow && xv_cachep == &cache)
 __CPROVER_requires(ssl_ctx != NULL && ssl_ctx == xv_my_ctx && xv_my_refs >= 1 && xv_my_refs_after == xv_my_refs - 1)
 __CPROVER_requires(XV_LIVE_OK(xv_heap_live) && XV_LIVE_OK(xv_ctx_live) && XV_LIVE_OK(xv_ctxfree_calls) && xv_ctx_dead == NULL && xv_hj < 32)
-__CPROVER_assigns(XV_LK_ASSIGNS, XV_CS_ASSIGNS, xv_heap_live, xv_ctx_live, xv_ctxfree_calls, xv_ctxfree_last, xv_ctx_dead)
+__CPROVER_assigns(XV_LK_ASSIGNS, XV_CS_ASSIGNS, xv_heap_live, XV_CX_ASSIGNS)
 /* PO[C15] ctx_store_put.lock_taken_once_and_released */
 __CPROVER_ensures(XV_LOCK_ONCE)
 /* PO[C15] ctx_store_put.list_head_not_written_after_release */
@@ -186,20 +186,20 @@ __CPROVER_ensures(((xv_acq.ctx[0] == ssl_ctx && xv_acq.cnt[0] == 1) || (xv_acq.c
 #ifdef XV_LSC_RECORD
 #define XV_LSC_STRINGS 1
 #define XV_LSC_GHOST_OK (XV_LIVE_OK(xv_lsc_calls))
-#define XV_LSC_ASSIGNS xv_lsc_calls, xv_lsc_cert, xv_lsc_key, xv_lsc_tc, xv_lsc_crl, xv_lsc_at_md
+#define XV_LSC_ASSIGNS xv_LSC
 #define XV_LSC_ENSURES __CPROVER_ensures(xv_lsc_calls == __CPROVER_old(xv_lsc_calls) + 1 && xv_lsc_cert == cert_data && xv_lsc_key == key_data && xv_lsc_tc == tc_data && xv_lsc_crl == crl_data && xv_lsc_at_md == xv_md_calls)
 #else
 #define XV_LSC_STR 6
 #define XV_LSC_S(p) (__CPROVER_is_fresh((p), XV_LSC_STR) && (p)[XV_LSC_STR - 1] == 0)
 #define XV_LSC_STRINGS (XV_LSC_S(cert_data) && XV_LSC_S(key_data) && (tc_data == NULL || XV_LSC_S(tc_data)) && (crl_data == NULL || XV_LSC_S(crl_data)))
-#define XV_LSC_GHOST_OK XV_OSSL_GHOST_OK
-#define XV_LSC_ASSIGNS XV_OSSL_ASSIGNS
-#define XV_LSC_ENSURES XV_OSSL_ENSURES
+#define XV_LSC_GHOST_OK (XV_LIVE_OK(xv_x509_live) && XV_LIVE_OK(xv_crl_live) && XV_LIVE_OK(xv_pkey_live) && XV_LIVE_OK(xv_bio_live))
+#define XV_LSC_ASSIGNS xv_OS
+#define XV_LSC_ENSURES __CPROVER_ensures(1)
 #endif
 /* ---- cut points of ctx_store_get_ctx */
 #define XV_VAL 4      /* designated file names / values are NUL-terminated strings of 0..3 bytes in the jobs of this unit */
 #define ITEM_TYPE_OK(i) ((i)->type == item_type_none || (i)->type == item_type_file || (i)->type == item_type_value)
-#define XV_DG_ASSIGNS __CPROVER_object_whole(xv_dg_log), xv_dg_len, xv_dg_updates, xv_stat_calls, xv_lstat_calls
+#define XV_DG_ASSIGNS xv_DG
 
 /* hash_item: feeds the designation of ONE item to the digest; does not touch errno (stat's errno is restored);
  * nothing is fed for an unset item; fails only for a file that cannot be stat()ed */
@@ -221,7 +221,7 @@ __CPROVER_ensures(xv_dg_updates >= __CPROVER_old(xv_dg_updates) && XV_LIVE_OK(xv
 #define XV_GCH_ITEM(i) (__CPROVER_r_ok((i), sizeof(struct item)) && ITEM_TYPE_OK(i) && ((i)->type != item_type_none ==> __CPROVER_r_ok((i)->data, 1)))
 #define XV_O4(a, b, i) ((a)[(i)] == __CPROVER_old((b)[(i)]) && (a)[(i) + 1] == __CPROVER_old((b)[(i) + 1]) && (a)[(i) + 2] == __CPROVER_old((b)[(i) + 2]) && (a)[(i) + 3] == __CPROVER_old((b)[(i) + 3]))
 #define HASH_IS_OLD(a, b) (XV_O4(a, b, 0) && XV_O4(a, b, 4) && XV_O4(a, b, 8) && XV_O4(a, b, 12) && XV_O4(a, b, 16) && XV_O4(a, b, 20) && XV_O4(a, b, 24) && XV_O4(a, b, 28))
-#define XV_MD_ASSIGNS xv_md_calls, __CPROVER_object_whole(xv_md_last), __CPROVER_object_whole(xv_md_prev), xv_ld_since_md, xv_ld_between, __CPROVER_object_whole(xv_ldb_res)
+#define XV_MD_ASSIGNS xv_MD
 static int get_credentials_hash(const struct item *cert, const struct item *key, const struct item *tc, const struct item *crl, uint8_t *hash, void *log_ref)
 __CPROVER_requires(XV_GCH_ITEM(cert) && XV_GCH_ITEM(key) && XV_GCH_ITEM(tc) && XV_GCH_ITEM(crl) && __CPROVER_w_ok(hash, 32))
 __CPROVER_requires(XV_LIVE_OK(xv_mdctx_live) && XV_LIVE_OK(xv_md_calls) && XV_LIVE_OK(xv_dg_updates) && XV_LIVE_OK(xv_stat_calls) && XV_LIVE_OK(xv_lstat_calls) && xv_dg_len <= XV_DG_MAX)
@@ -246,7 +246,7 @@ static SSL_CTX *load_ssl_ctx(const char *cert_data, const char *key_data, const 
 __CPROVER_requires(cert_data != NULL && key_data != NULL)
 __CPROVER_requires(XV_LSC_STRINGS)
 __CPROVER_requires(XV_LIVE_OK(xv_ctx_live) && XV_LIVE_OK(xv_ctxfree_calls) && XV_LSC_GHOST_OK)
-__CPROVER_assigns(xv_errno, xv_ctx_live, xv_ctxfree_calls, xv_ctxfree_last, xv_ctx_dead, XV_LSC_ASSIGNS)
+__CPROVER_assigns(xv_errno, XV_CX_ASSIGNS, XV_LSC_ASSIGNS)
 /* PO[C18] load_ssl_ctx.null_means_eproto */
 __CPROVER_ensures(__CPROVER_return_value == NULL ==> xv_errno == EPROTO)
 /* PO[C08] load_ssl_ctx.failure_leaks_no_context */
@@ -281,8 +281,8 @@ __CPROVER_requires(!xv_lk_held && XV_LK_CNT_OK && cache.entries.lh_first == xv_c
 __CPROVER_requires(XV_LIVE_OK(xv_heap_live) && XV_LIVE_OK(xv_ctx_live) && XV_LIVE_OK(xv_ctxfree_calls) && xv_ctx_dead == NULL && XV_LIVE_OK(xv_mdctx_live) && XV_LIVE_OK(xv_md_calls) && \
                    XV_LIVE_OK(xv_ld_calls) && XV_LIVE_OK(xv_dg_updates) && XV_LIVE_OK(xv_stat_calls) && XV_LIVE_OK(xv_lstat_calls) && xv_dg_len <= XV_DG_MAX && XV_LSC_GHOST_OK && \
                    xv_ld_since_md >= 0 && xv_ld_since_md < 1000 && xv_md_settle == xv_md_calls + XV_MD_FRESH && xv_snprintf_calls >= 0 && xv_snprintf_calls < 1000000)
-__CPROVER_assigns(XV_LK_ASSIGNS, XV_CS_ASSIGNS, xv_errno, xv_heap_live, xv_ctx_live, xv_ctxfree_calls, xv_ctxfree_last, xv_ctx_dead, XV_LSC_ASSIGNS, XV_DG_ASSIGNS, \
-                  xv_mdctx_live, XV_MD_ASSIGNS, xv_ld_calls, __CPROVER_object_whole(xv_ld_res), xv_snprintf_ret, xv_snprintf_cap, xv_snprintf_calls)
+__CPROVER_assigns(XV_LK_ASSIGNS, XV_CS_ASSIGNS, xv_errno, xv_heap_live, XV_CX_ASSIGNS, XV_LSC_ASSIGNS, XV_DG_ASSIGNS, \
+                  xv_mdctx_live, XV_MD_ASSIGNS, xv_LD, xv_SNP)
 /* PO[C15] ctx_store_get_ctx.lock_taken_once_and_released_on_every_exit_path */
 __CPROVER_ensures(XV_LOCK_ONCE)
 /* PO[C15] ctx_store_get_ctx.list_head_not_written_after_release */
